@@ -44,10 +44,24 @@ impl BuildTargetActor {
                 );
 
                 self.helper.set_execution_started();
+                #[cfg(zinoma_verif)]
+                crate::verif::emit("build_begin", &self.helper.target_id.to_string(), &[]);
             }
+
+            #[cfg(zinoma_verif)]
+            crate::verif::emit(
+                "idle",
+                &self.helper.target_id.to_string(),
+                &[
+                    ("st", self.helper.verif_snapshot()),
+                    ("inflight", ongoing_build_cancellation_sender.is_some().to_string()),
+                ],
+            );
 
             futures::select! {
                 _ = self.helper.termination_events.next().fuse() => {
+                    #[cfg(zinoma_verif)]
+                    crate::verif::emit("wake_term", &self.helper.target_id.to_string(), &[]);
                     termination_event_received = true;
                     if let Some(ongoing_build_cancellation_sender) = &mut ongoing_build_cancellation_sender {
                         if ongoing_build_cancellation_sender.try_send(BuildCancellationMessage).is_err() {
@@ -58,9 +72,17 @@ impl BuildTargetActor {
                     }
                 },
                 _ = self.helper.target_invalidated_events.next().fuse() => {
+                    #[cfg(zinoma_verif)]
+                    crate::verif::emit("wake_inval", &self.helper.target_id.to_string(), &[]);
                     self.helper.notify_invalidated(ExecutionKind::Build).await
                 }
                 message = self.helper.target_actor_input_receiver.next().fuse() => {
+                    #[cfg(zinoma_verif)]
+                    crate::verif::emit(
+                        "recv",
+                        &self.helper.target_id.to_string(),
+                        &[("msg", message.as_ref().unwrap().verif_json())],
+                    );
                     match message.unwrap() {
                         ActorInputMessage::Ok { kind, target_id, .. } => {
                             self.helper.unavailable_dependencies.get_mut(&kind).unwrap().remove(&target_id);
@@ -100,6 +122,20 @@ impl BuildTargetActor {
                     }
                 }
                 build_result = ongoing_build_fuse => {
+                    #[cfg(zinoma_verif)]
+                    crate::verif::emit(
+                        "wake_build",
+                        &self.helper.target_id.to_string(),
+                        &[(
+                            "result",
+                            crate::verif::js(match &build_result {
+                                Err(_) => "failed",
+                                Ok(IncrementalRunResult::Skipped) => "skipped",
+                                Ok(IncrementalRunResult::Completed) => "completed",
+                                Ok(IncrementalRunResult::Cancelled) => "cancelled",
+                            }),
+                        )],
+                    );
                     ongoing_build_cancellation_sender = None;
 
                     match build_result {
@@ -125,5 +161,7 @@ impl BuildTargetActor {
                 },
             }
         }
+        #[cfg(zinoma_verif)]
+        crate::verif::emit("actor_exit", &self.helper.target_id.to_string(), &[]);
     }
 }
